@@ -76,3 +76,9 @@ Theorem C03_pair_measurement_segments_measure_the_product : GenProofs_TabMeas.se
 Proof. exact GenProofs_TabMeas.analyzer_pair_segments_ok. Qed.
 Print Assumptions C03_pair_measurement_segments_measure_the_product.
 
+(* MPP / SPP entry points of the four simulators, regenerated from source: forward classes execute the decomposition's gates in
+   order through their own dispatch; backward classes decompose the reversed target list, undo each emitted gate and reverse the
+   targets of each emitted M. *)
+Theorem C03_product_entry_points_use_the_decomposition : GenProofs_TabMeas.product_entries_ok = true.
+Proof. exact GenProofs_TabMeas.product_entry_points_ok. Qed.
+Print Assumptions C03_product_entry_points_use_the_decomposition.
